@@ -103,6 +103,7 @@ def cases(tier, rng):
         for m in ms:
             for s in ss:
                 yield case_line('t.hms', h, m, s)
+                yield case_line('t.phms', h, m, s)
     subs = {
         't.hms_milli': [0, 1, 999, 1000, 1001, 1999, 2000, 2001, 4294, 4295, U32_MAX, 2147, 2148],
         't.hms_micro': [0, 1, 999999, 1000000, 1000001, 1999999, 2000000, 2000001, 4294967, 4294968, U32_MAX],
@@ -114,9 +115,11 @@ def cases(tier, rng):
                 for s in (0, 58, 59, 60):
                     for x in xs:
                         yield case_line(op, h, m, s, x)
+                        yield case_line(op.replace('t.hms', 't.phms'), h, m, s, x)
     for s in around([0, 59, 60, 119, 3599, 3600, 86339, 86399, 86400, 86459, U32_MAX], lo=0, hi=U32_MAX):
         for n in [0, 1, G - 1, G, G + 1, 2 * G - 1, 2 * G, 2 * G + 1, U32_MAX]:
             yield case_line('t.nsfm', s, n)
+            yield case_line('t.pnsfm', s, n)
     # ---- accessors and replacement
     for t in times:
         yield case_line('t.acc', t)
